@@ -119,6 +119,27 @@ def entangling_program(draw, n, max_heralded=1, allow_ps=True):
     return sanitize({"n": n, "gates": gates + tail["gates"]})
 
 
+@st.composite
+def clifford_program(draw, n, max_gates=6, max_heralded=1, allow_ps=True):
+    """Only named gates (no generic unitaries): states and processes with exactly vanishing entries."""
+    gates = []
+    heralded = 0
+    names1 = ["H", "X", "Y", "Z", "S", "Sadj", "I", "T", "SX"]
+    for _ in range(draw(st.integers(1, max_gates))):
+        if n >= 2 and draw(st.integers(0, 2)) == 0:
+            q = draw(st.integers(0, n - 2))
+            opts = (["CZ", "CNOT"] if allow_ps else []) + (["CZ_Heralded", "CNOT_Heralded"]
+                                                           if heralded < max_heralded else []) + ["SWAP"]
+            name = draw(st.sampled_from(opts))
+            if "Heralded" in name:
+                heralded += 1
+            kw = {"target_qubit": draw(st.integers(0, 1))} if "CNOT" in name else {}
+            gates.append([name, q, kw])
+        else:
+            gates.append([draw(st.sampled_from(names1)), draw(st.integers(0, n - 1)), {}])
+    return sanitize({"n": n, "gates": gates})
+
+
 PS_GATES = {"CZ": 2, "CNOT": 2, "CCZ": 3, "CCNOT": 3}
 MULTI = {"CZ": 2, "CNOT": 2, "CZ_Heralded": 2, "CNOT_Heralded": 2, "SWAP": 2, "CCZ": 3, "CCNOT": 3}
 
@@ -191,6 +212,14 @@ def build_real(prog):
     return c
 
 
+def ulp_choice(ulp_seed, i):
+    """Which of the requested circuits get their weights re-rounded in the last place (about 40%)."""
+    import random
+    if ulp_seed is None:
+        return None
+    return ulp_seed + i if random.Random(ulp_seed * 1009 + i).random() < 0.4 else None
+
+
 def herald_photons(prog):
     return 2 * sum(1 for g in prog["gates"] if "Heralded" in g[0])
 
@@ -206,12 +235,27 @@ def dual_rail_outputs(n):
     return [basis_state(n, b) for b in range(2 ** n)]
 
 
-def exact_counts(circ, n, vin):
+def exact_counts(circ, n, vin, ulp_seed=None, normalise=False):
     """Exact heralded, dual-rail post-selected outcome weights of a real circuit for input vin
-    (own permanent on the public U_full and heralds)."""
+    (own permanent on the public U_full and heralds).  With ulp_seed every weight is moved by -1, 0 or +1
+    unit in the last place (a different but equally valid rounding of the same noiseless frequencies)."""
+    import random
+
     import lightworks as lw
+    rng = random.Random(ulp_seed) if ulp_seed is not None else None
     out = {}
     for o in dual_rail_outputs(n):
         p = abs(real_heralded_amp(circ, vin, o)) ** 2
+        if rng is not None:
+            k = rng.choice((-1, 0, 0, 1))
+            if k:
+                p = float(np.nextafter(p, math.inf if k > 0 else 0.0))
         out[lw.State(list(o))] = p
+    if normalise:
+        # relative frequencies instead of raw weights: computed from the normalised state vector, i.e. the
+        # amplitudes are divided by the norm before squaring (another valid rounding of the same numbers)
+        amps = {k: math.sqrt(v) for k, v in out.items()}
+        nrm = math.sqrt(sum(v for v in out.values()))
+        if nrm > 0:
+            out = {k: abs(a / nrm) ** 2 for k, a in amps.items()}
     return out
